@@ -10,6 +10,10 @@
 (*   step label               action of ConcQueue.tla that must be enabled                        *)
 (*   call:pN / grant:pN       Call(N) / EnqCS(N)                                                  *)
 (*   enter:jN fin:jN wcs:jN   Start(N) / Fin(N) / WorkerCS(N)                                     *)
+(*   wcs:nil  wcs:nil#2 ...   NilCS(k): a worker that holds a nil job takes the lock.  Such       *)
+(*                            workers cannot be told apart (the driver does not know which nil    *)
+(*                            job a goroutine was given, and it makes no difference): the replay  *)
+(*                            takes the held nil job with the smallest id.                        *)
 (*   call:wi grant:wi         CallWI / WICS          cancel:wi  CancelWI       errch  FireErr     *)
 (*   call:ws grant:ws         CallWS / WSCS          cancel:ws  CancelWS                          *)
 (*                                                                                              *)
@@ -21,8 +25,9 @@
 (* logged within this step (or its absence) tells which one was taken.                           *)
 (*                                                                                              *)
 (* The API-level events logged between two steps are assertions on the spec's state after the    *)
-(* step: new (limit, jobs handed over), call/ret of Enqueue (the pending batch; the returned     *)
-(* pair must be (Len(queue), running)), enter/leave (js), call/ret of WaitIdle and WatchState    *)
+(* step: new (limit, jobs handed over, which of them are nil), call/ret of Enqueue (the pending  *)
+(* batch and which of its jobs are nil; the returned pair must be (Len(queue), running)),        *)
+(* enter/leave (js), call/ret of WaitIdle and WatchState                                         *)
 (* (pc and wirv / wsrv), watch (k-th callback and its pair), cancel, fire, quiet (LibQuiet and   *)
 (* exactly the logged set of jobs about to start); and when the controller ran out of moves no   *)
 (* labelled action may be enabled in the spec.  A mismatch is DRIFT (recorded, the rest of that  *)
@@ -51,11 +56,15 @@ Kind(lbl) == IF Pre(lbl, "call:p") THEN "call"
              ELSE IF Pre(lbl, "enter:j") THEN "start"
              ELSE IF Pre(lbl, "fin:j") THEN "fin"
              ELSE IF Pre(lbl, "wcs:j") THEN "wcs"
+             ELSE IF Pre(lbl, "wcs:nil") THEN "nilcs"
              ELSE IF lbl \in {"call:wi", "grant:wi", "cancel:wi", "errch", "call:ws", "grant:ws", "cancel:ws"} THEN lbl
              ELSE "?"
 Digit(c) == CASE c = "1" -> 1 [] c = "2" -> 2 [] c = "3" -> 3 [] c = "4" -> 4 [] c = "5" -> 5 [] c = "6" -> 6 [] OTHER -> 0
 Num(lbl) == Digit(SubSeq(lbl, Len(lbl), Len(lbl)))
 PIdx(c) == IF c = "p1" THEN 1 ELSE IF c = "p2" THEN 2 ELSE 0
+Held == {j \in Jobs : js[j] = "held"}
+MinHeld == CHOOSE j \in Held : \A k \in Held : j <= k
+NilsOf(e) == IF "nils" \in DOMAIN e THEN SeqToSet(e.nils) ELSE {}
 
 -----------------------------------------------------------------------------
 (* the events logged within the current step: Trace[l+1] .. up to the next step *)
@@ -74,6 +83,7 @@ CanAct(k, n) ==
          [] k = "start"     -> n \in Jobs /\ ENABLED Start(n)
          [] k = "fin"       -> n \in Jobs /\ ENABLED Fin(n)
          [] k = "wcs"       -> n \in Jobs /\ ENABLED WorkerCS(n)
+         [] k = "nilcs"     -> Held # {} /\ ENABLED NilCS(MinHeld)
          [] k = "call:wi"   -> ENABLED CallWI
          [] k = "grant:wi"  -> ENABLED WICS
          [] k = "cancel:wi" -> ENABLED CancelWI
@@ -90,6 +100,7 @@ Act(k, n) ==
          [] k = "start"     -> Start(n)
          [] k = "fin"       -> Fin(n)
          [] k = "wcs"       -> WorkerCS(n)
+         [] k = "nilcs"     -> NilCS(MinHeld)
          [] k = "call:wi"   -> CallWI
          [] k = "grant:wi"  -> WICS
          [] k = "cancel:wi" -> CancelWI
@@ -133,7 +144,7 @@ Check(ok, why) == IF ok THEN Fin0 ELSE Drift(why)
 AnyMove ==
     /\ sc # 0
     /\ \/ \E p \in 1..MaxP : ENABLED (Call(p) \/ EnqCS(p))
-       \/ \E j \in Jobs : ENABLED (Start(j) \/ Fin(j) \/ WorkerCS(j))
+       \/ \E j \in Jobs : ENABLED (Start(j) \/ Fin(j) \/ WorkerCS(j) \/ NilCS(j))
        \/ ENABLED (CallWI \/ WICS \/ CancelWI \/ FireErr \/ CallWS \/ WSCS \/ CancelWS)
 
 TStep ==
@@ -151,9 +162,11 @@ TStep ==
               ELSE IF ~CanAct(k, n) THEN Drift("step not enabled: " \o e.label)
               ELSE Act(k, n) \cdot W \cdot W \cdot W \cdot Fin0
          [] e.ev = "new" ->
-              Check(limit = e.limit /\ enqd = SeqToSet(e.jobs) /\ S.init = e.jobs, "constructor not explained by the spec")
+              Check(limit = e.limit /\ enqd = SeqToSet(e.jobs) /\ S.init = e.jobs /\ NilsOf(e) = Nils \cap SeqToSet(e.jobs) /\ nilj = NilsOf(e),
+                    "constructor not explained by the spec")
          [] e.ev = "call" /\ e.op = "enq" ->
-              Check(PIdx(e.c) \in 1..MaxP /\ ppc[PIdx(e.c)] = "cs" /\ e.c \in DOMAIN pend /\ pend[e.c] = e.jobs,
+              Check(PIdx(e.c) \in 1..MaxP /\ ppc[PIdx(e.c)] = "cs" /\ e.c \in DOMAIN pend /\ pend[e.c] = e.jobs
+                    /\ NilsOf(e) = Nils \cap SeqToSet(e.jobs) /\ NilsOf(e) \subseteq nilj,
                     "Enqueue call not explained by the spec")
          [] e.ev = "ret" /\ e.op = "enq" ->
               Check(PIdx(e.c) \in 1..MaxP /\ ppc[PIdx(e.c)] = "idle" /\ e.c \in DOMAIN pend /\ pend[e.c] = <<>>
